@@ -19,7 +19,8 @@ META = {
     'level_text': 'C36_same_value (every column class incl. nested List/Set/Map/Tuple/UDT x every valid value: to_database output '
                   'denotes the CQL value cqltypes serialisation encodes for the original value), C36_datetime_exact_ms (every '
                   'wall clock, every utcoffset function incl. DST: stored ms = floor of the exact instant, exact on whole ms, truncation toward zero below), '
-                  'C36_datetime_naive_is_utc; pre-repair float/epoch-offset code refuted by computed witnesses.',
+                  'C36_datetime_naive_is_utc; C36_resend (same object sent n times); the CQL literal actually sent (Encoder, Duration/Time __str__) is part of '
+                  'C36_same_value; pre-repair float/epoch-offset code refuted; C36_full_statement (core float path everywhere) refuted = open C36-5.',
     'level_note': 'Hand-written model tied by correspondence only (tie C). Trusted: Coq kernel, harness (spec builders, struct-level '
                   'decoder, tz rule zones), Python datetime/timedelta arithmetic (wall-clock microseconds are harness inputs), '
                   'the CQL literal path (Encoder + server parsing) is represented by `denote`, tied to cqltypes.serialize of the '
